@@ -79,7 +79,8 @@ def timeOps : List (String × Op) := [
   ("riPublished", fun
     | [s, n] => do
       let s ← parseI64 s; let n ← parseI64 n
-      pure s!"ok date={createPublishedDate (timeUnix s n)}"
+      -- `NewRouterInfo` rejects a zero published date ("undefined")
+      pure (if createPublishedDate (timeUnix s n) = 0 then "err" else s!"ok date={createPublishedDate (timeUnix s n)}")
     | _ => none),
   ("expired", fun
     | [kind, delta, e] => do
